@@ -55,7 +55,7 @@ def run(ctx, out):
         "liveness is checked on the model under weak fairness; on the real code a hang is diagnosed when full round-robin sweeps of all enabled decisions no longer change the control state",
     ]
     # ---- Leg M
-    rc.model_check(out, ["RaceDriver.c01.quick.cfg" if ctx.quick else "RaceDriver.c01.thorough.cfg", "RaceDriver.live.cfg"], timeout=3000)
+    rc.model_check(out, ["RaceDriver.c01.quick.cfg", "RaceDriver.live.cfg"] if ctx.quick else ["RaceDriver.c01.thorough.cfg", "RaceDriver.live.thorough.cfg"], timeout=3000)
     traps = trap_schedules(out)
     # ---- Leg S2C
     jobs = []
